@@ -142,7 +142,7 @@ class RangeNode(OperandNode):
         addr = self.address
         if '!' not in addr:
             addr = f'{context.sheet}!{addr}'
-        return addr
+        return utils.strip_absolute(addr)
 
     def eval(self, context):
         addr = self.full_address(context)
